@@ -45,6 +45,16 @@ func (c *Class) classIdentifierProcessing(
 	ctx.StartDefineStatic()
 	defer ctx.EndDefineStatic()
 
+	// the singleton body has visibility sections of its own: a private of
+	// the enclosing class body does not reach into it, and comes back after
+	outerIsPrivate, outerIsProtected := ctx.IsPrivate, ctx.IsProtected
+	ctx.EndPrivate()
+	ctx.EndProtected()
+
+	defer func() {
+		ctx.IsPrivate, ctx.IsProtected = outerIsPrivate, outerIsProtected
+	}()
+
 	for {
 		nextT, err := p.Read()
 		if err != nil {
